@@ -77,6 +77,31 @@ def opts_source(opts, model, extra_first=()):
     return parts
 
 
+def normalised_opts_source(opts, model, variant):
+    """concrete counterpart of drive.normalised_attr"""
+    from .spec import EXPORT_VARIANTS, UNIMOCK_VARIANTS
+    vals = {}
+    for name in ('no_deps', 'export', 'unimock', 'mockall', 'debug'):
+        o = opts.f(name)
+        if isinstance(o, Obj) and o.variant == 'Some':
+            vals[name] = bool_of(model, o.fields[0].fields[0])
+    if variant in EXPORT_VARIANTS and 'export' not in vals:
+        vals['export'] = True
+    if variant in UNIMOCK_VARIANTS and 'unimock' not in vals:
+        vals['unimock'] = True
+    for name in ('no_deps', 'export'):
+        if vals.get(name) is False:
+            del vals[name]
+    parts = [f'{n} = {"true" if vals[n] else "false"}' for n in ('no_deps', 'export', 'unimock', 'mockall', 'debug') if n in vals]
+    ma = opts.f('mock_api')
+    if isinstance(ma, Obj) and ma.variant == 'Some':
+        parts.append('mock_api = ' + namer(model)(ma.fields[0].fields[0].name))
+    fs = opts.f('future_send')
+    if isinstance(fs, Obj) and fs.variant == 'Some':
+        parts.append('?Send')
+    return parts
+
+
 def concretize(prog, pr, model=None):
     """-> dict(macro, attr_src, item_src, model, attr, item)"""
     model = model or path_model(pr)
@@ -99,13 +124,25 @@ def concretize(prog, pr, model=None):
     else:
         raise Unsupported(mode)
     item_toks = drive.item_tokens(prog, mode, item, P)
-    return dict(macro=info['variant'], attr_src=attr_src, item_src=to_source(item_toks), model=model, attr=attr, item=item,
+    conc = dict(macro=info['variant'], attr_src=attr_src, item_src=to_source(item_toks), model=model, attr=attr, item=item,
                 item_flat=rsview.split_flat(item_toks), printer=P)
+    if 'meta_out2' in pr.notes and mode in ('fn', 'mod', 'trait'):
+        # the canonical spelling of the same invocation (C17), expanded next to it on replay
+        norm = normalised_opts_source(attr.f('opts'), model, info['variant'])
+        if mode == 'trait':
+            full = drive.trait_attr_source(attr, model, namer(model), P)
+            own = opts_source(attr.f('opts'), model)
+            keep = [x.strip() for x in full.split(',') if x.strip() and x.strip() not in own]
+            twin_attr = ', '.join(keep + norm)
+        else:
+            twin_attr = ', '.join([head] + norm)
+        conc['twin_attr_src'] = twin_attr
+    return conc
 
 
-def predicted_flat(pr, conc):
+def predicted_flat(pr, conc, v=None):
     """the executor's output for this path as comparison-form tokens, concretised by the model"""
-    v = pr.value
+    v = pr.value if v is None else v
     P = conc['printer']
     if pr.kind == 'ok' and v.variant == 'Ok':
         return rsview.split_flat(P.flat(v.fields[0].toks))
@@ -223,7 +260,9 @@ def write_replay_dir(path, case, meta):
     shutil.copy(os.path.join(REPO, 'Cargo.lock'), os.path.join(path, 'Cargo.lock'))
     open(os.path.join(path, 'src', 'lib.rs'), 'w').write(
         '#![allow(unused, non_snake_case, non_camel_case_types)]\n'
-        f'mod case0 {{\n    #[::entrait_macros::{case["macro"]}({case["attr_src"]})]\n    {case["item_src"]}\n}}\n')
+        f'mod case0 {{\n    #[::entrait_macros::{case["macro"]}({case["attr_src"]})]\n    {case["item_src"]}\n}}\n' +
+        (f'mod case1 {{\n    #[::entrait_macros::{case["twin"]["macro"]}({case["twin"]["attr_src"]})]\n    {case["twin"]["item_src"]}\n}}\n'
+         if case.get('twin') else ''))
     json.dump(dict(kind='smir', case=case, **meta,
                    how='RUSTFLAGS="--cfg audunhalland_entrait_verif" ENTRAIT_VERIF_DUMP=dump.jsonl cargo check --offline ; '
                        'the recorded output equals `predicted`, on which the obligation named in `role` fails'),
@@ -233,7 +272,18 @@ def write_replay_dir(path, case, meta):
 def replay_dir(path):
     meta = json.load(open(os.path.join(path, 'replay.json')))
     case = meta['case']
-    recs, log, dt = expand_batch([case], name='s_replay_one')
+    recs, log, dt = expand_batch([case] + ([case['twin']] if case.get('twin') else []), name='s_replay_one')
+    if case.get('twin'):
+        outs = [rec_split(r['output']) if 'output' in r else None for r in recs]
+        if len(outs) == 2:
+            print('real expansion as written :', rsview.show(unsplit(outs[0] or []))[:1500])
+            print('real expansion canonical  :', rsview.show(unsplit(outs[1] or []))[:1500])
+            if json.dumps(outs[0]) == json.dumps(case.get('pred')) and json.dumps(outs[1]) == json.dumps(case['twin'].get('pred')) \
+                    and json.dumps(outs[0]) != json.dumps(outs[1]):
+                print(f'REPRODUCED: both equal the predicted expansions and differ from each other: `{meta.get("role")}`')
+                return 1
+        print('NOT REPRODUCED')
+        return 0
     for r in recs:
         if r.get('panic'):
             print('real macro: PANIC')
@@ -307,15 +357,7 @@ def concretize_front_item(prog, pr, model):
     ex2.decide = lambda n, label: 0
     ex2.assume = lambda c: None
     if info.get('layout'):
-        cells = []
-        fixed_fn = [('I', 'pub'), ('I', 'fn'), ('I', 'g0'), ('G', '(', list(front.PAREN_GROUPS['(deps: &impl B0)'])), ('G', '{', [])]
-        for part in info['layout']:
-            if part == 'FN':
-                cells += list(fixed_fn)
-            elif part == 'STRUCT':
-                cells += [('I', 'struct'), ('I', 'Y'), ('P', ';')]
-            else:
-                cells += front.sym_item_segments('it.' + part, 'reduced' if part.startswith('r') else ('single-fn' if part.startswith('s') else 'full'))
+        cells = front.layout_cells(info['layout'])
         front.expand_segments(ex2, cells, 10 ** 6)
     else:
         cells = front.sym_item_tokens('t', info['n'])
